@@ -5,7 +5,20 @@ EXTENDS Xsd
 XsdNs == <<104,116,116,112,58,47,47,119,119,119,46,119,51,46,111,114,103,47,50,48,48,49,47,88,77,76,83,99,104,101,109,97,35>>
 Dt(name) == XsdNs \o name
 IntegerTypes == { Dt(<<105,110,116,101,103,101,114>>), Dt(<<108,111,110,103>>), Dt(<<105,110,116>>), Dt(<<115,104,111,114,116>>), Dt(<<98,121,116,101>>),
-                  Dt(<<110,111,110,78,101,103,97,116,105,118,101,73,110,116,101,103,101,114>>), Dt(<<112,111,115,105,116,105,118,101,73,110,116,101,103,101,114>>) }
+                  Dt(<<110,111,110,78,101,103,97,116,105,118,101,73,110,116,101,103,101,114>>), Dt(<<112,111,115,105,116,105,118,101,73,110,116,101,103,101,114>>),
+                  Dt(<<110,111,110,80,111,115,105,116,105,118,101,73,110,116,101,103,101,114>>), Dt(<<110,101,103,97,116,105,118,101,73,110,116,101,103,101,114>>) }
+\* value-space facets of the derived integer types (exact digit arithmetic): [lo, hi], <<>> = unbounded
+Facet(dt) ==
+  CASE dt = Dt(<<98,121,116,101>>) -> [lo |-> <<45,49,50,56>>, hi |-> <<49,50,55>>]
+    [] dt = Dt(<<115,104,111,114,116>>) -> [lo |-> <<45,51,50,55,54,56>>, hi |-> <<51,50,55,54,55>>]
+    [] dt = Dt(<<105,110,116>>) -> [lo |-> <<45,50,49,52,55,52,56,51,54,52,56>>, hi |-> <<50,49,52,55,52,56,51,54,52,55>>]
+    [] dt = Dt(<<108,111,110,103>>) -> [lo |-> <<45,57,50,50,51,51,55,50,48,51,54,56,53,52,55,55,53,56,48,56>>, hi |-> <<57,50,50,51,51,55,50,48,51,54,56,53,52,55,55,53,56,48,55>>]
+    [] dt = Dt(<<110,111,110,78,101,103,97,116,105,118,101,73,110,116,101,103,101,114>>) -> [lo |-> <<48>>, hi |-> <<>>]
+    [] dt = Dt(<<112,111,115,105,116,105,118,101,73,110,116,101,103,101,114>>) -> [lo |-> <<49>>, hi |-> <<>>]
+    [] dt = Dt(<<110,111,110,80,111,115,105,116,105,118,101,73,110,116,101,103,101,114>>) -> [lo |-> <<>>, hi |-> <<48>>]
+    [] dt = Dt(<<110,101,103,97,116,105,118,101,73,110,116,101,103,101,114>>) -> [lo |-> <<>>, hi |-> <<45,49>>]
+    [] OTHER -> [lo |-> <<>>, hi |-> <<>>]
+InFacet(lex, dt) == LET f == Facet(dt) IN (f.lo = <<>> \/ ~NumLess(lex, f.lo)) /\ (f.hi = <<>> \/ ~NumLess(f.hi, lex))
 DecimalType == Dt(<<100,101,99,105,109,97,108>>)
 DoubleTypes == { Dt(<<100,111,117,98,108,101>>), Dt(<<102,108,111,97,116>>) }
 StringType == Dt(<<115,116,114,105,110,103>>)
@@ -13,14 +26,18 @@ BooleanType == Dt(<<98,111,111,108,101,97,110>>)
 KindRank(t) == CASE t.k = "unbound" -> 0 [] t.k = "bnode" -> 1 [] t.k = "iri" -> 2 [] t.k = "lit" -> 3
 \* numeric value class: finite numbers with a valid lexical form for their datatype
 IsNum(t) == t.k = "lit" /\ t.lang = <<>> /\
-   \/ t.dt \in IntegerTypes /\ IsInteger(t.lex)
+   \/ t.dt \in IntegerTypes /\ IsInteger(t.lex) /\ InFacet(t.lex, t.dt)
    \/ t.dt = DecimalType /\ IsDecimal(t.lex)
    \/ t.dt \in DoubleTypes /\ IsDouble(t.lex) /\ t.lex \notin {NaN, INF, <<43>> \o INF, <<45>> \o INF}
 IsPosInf(t) == t.k = "lit" /\ t.lang = <<>> /\ t.dt \in DoubleTypes /\ t.lex \in {INF, <<43>> \o INF}
 IsNegInf(t) == t.k = "lit" /\ t.lang = <<>> /\ t.dt \in DoubleTypes /\ t.lex = <<45>> \o INF
 IsStr(t) == t.k = "lit" /\ t.lang = <<>> /\ t.dt = StringType
 IsBool(t) == t.k = "lit" /\ t.lang = <<>> /\ t.dt = BooleanType /\ t.lex \in {<<116,114,117,101>>, <<102,97,108,115,101>>}
+DateTimeType == Dt(<<100,97,116,101,84,105,109,101>>)
+\* dateTimes in the fixed form YYYY-MM-DDThh:mm:ssZ compare as their lexical forms
+IsDateTimeZ(t) == t.k = "lit" /\ t.lang = <<>> /\ t.dt = DateTimeType /\ Len(t.lex) = 20 /\ t.lex[20] = 90 /\ t.lex[11] = 84
 SparqlLess(a, b) ==
+  \/ IsDateTimeZ(a) /\ IsDateTimeZ(b) /\ DigLess(a.lex, b.lex, 1)
   \/ IsNum(a) /\ IsNum(b) /\ NumLess(a.lex, b.lex)
   \/ IsNegInf(a) /\ (IsNum(b) \/ IsPosInf(b))
   \/ IsPosInf(b) /\ IsNum(a)
@@ -38,4 +55,23 @@ ReachSet(outs, frontier, seen) == LET nxt == {b \in Vals(outs) : \E a \in fronti
                                   IF nxt = {} THEN seen ELSE ReachSet(outs, nxt, seen \cup nxt)
 Reach(outs, a, b) == b \in ReachSet(outs, {a}, {})
 Consistent(outs, desc) == \A a, b \in Vals(outs) : MustPrecede(a, b, desc) => ~Reach(outs, b, a)
+\* ---- rows with several keys (C14): keys = sequence of [k |-> column, desc |-> BOOLEAN] ----
+\* a tie on a key: the same term, or two numerics '<' can compare and finds equal (-0.0 / 0 / 0.0, 10 / 10.0 / 1e1)
+SameTermV(a, b) == a = b \/ (IsNum(a) /\ IsNum(b) /\ NumEq(a.lex, b.lex))
+RECURSIVE RowPrecedes(_, _, _, _)
+\* row r1 MUST come before row r2: decided by the first key on which their values are not the same term
+RowPrecedes(r1, r2, keys, i) ==
+  IF i > Len(keys) THEN FALSE
+  ELSE LET a == r1[keys[i].k]  b == r2[keys[i].k] IN
+       IF MustPrecede(a, b, keys[i].desc) THEN TRUE
+       ELSE IF SameTermV(a, b) THEN RowPrecedes(r1, r2, keys, i + 1)
+       ELSE FALSE
+NoRowInversion(out, keys) == \A i, j \in 1..Len(out) : i < j => ~RowPrecedes(out[j], out[i], keys, 1)
+RowVals(outs) == UNION { {outs[n][i] : i \in 1..Len(outs[n])} : n \in 1..Len(outs) }
+RowEdge(outs, a, b) == \E n \in 1..Len(outs) : \E i \in 1..(Len(outs[n]) - 1) : outs[n][i] = a /\ outs[n][i + 1] = b
+RECURSIVE RowReachSet(_, _, _)
+RowReachSet(outs, frontier, seen) == LET nxt == {b \in RowVals(outs) : \E a \in frontier : RowEdge(outs, a, b)} \ seen IN
+                                     IF nxt = {} THEN seen ELSE RowReachSet(outs, nxt, seen \cup nxt)
+\* one total preorder extending the mandatory precedences explains every output of the batch
+RowsConsistent(outs, keys) == \A a, b \in RowVals(outs) : RowPrecedes(a, b, keys, 1) => a \notin RowReachSet(outs, {b}, {})
 ====
